@@ -161,6 +161,29 @@ pub fn edit(ctx: &mut Ctx) {
                 plain or encrypted (password given); one editing command per case — delete/chmod/chown/xattr set/xattr remove/strip with generated arguments (glob patterns matching none/some/all, \
                 numeric and symbolic modes, known/unknown users, flags) x {--unsolid,--keep-solid}; real `pna` run twice (idempotence), output read with the library and compared with the model's transform \
                 and a frame/target oracle; non-trivial = at least one entry; distinct by request line".into();
+    // deterministic witness of the known finding C10-acl-set-without-general-list: an entry that carries no access-control list of
+    // the General platform (here: none at all — what `pna create` writes without --keep-acl; with --keep-acl on Linux the list is
+    // a `linux` one) is named to `acl set -m`: the command exits 0 and changes nothing
+    {
+        use std::io::Write;
+        let sbx = Sbx::new("edit-w", 0);
+        let mut a = Archive::write_header(Vec::new()).unwrap();
+        let mut b = EntryBuilder::new_file(EntryName::from("f.txt"), WriteOptions::store()).unwrap();
+        b.write_all(b"x").unwrap();
+        a.add_entry(b.build().unwrap()).unwrap();
+        let bytes0 = a.finalize().unwrap();
+        std::fs::write(sbx.path("a.pna"), &bytes0).unwrap();
+        let r = run_pna(&sbx, &sbx.root, &["experimental", "acl", "set", "--unstable", "a.pna", "-m", "u:alice:r,w", "f.txt"], None, 60, &[]);
+        ctx.oracle_eval();
+        if r.ok() {
+            let after = std::fs::read(sbx.path("a.pna")).unwrap_or_default();
+            let has_ace = crate::refdec::chunks(&after).map(|(cs, _)| cs.iter().any(|(t, d)| t == b"faCe" && String::from_utf8_lossy(d).contains("alice"))).unwrap_or(false);
+            if !has_ace {
+                ctx.violation("C10", "`acl set -m` exits 0 without setting the entry it names", json!({"witness":"acl-set-without-general-list","argv":["experimental","acl","set","a.pna","-m","u:alice:r,w","f.txt"],"archive_unchanged": after == bytes0}));
+            }
+        }
+        ctx.case_free();
+    }
     let n = if ctx.thorough { 900 } else { 70 };
     for case in 0..n {
         let mut cfg = gen::gen_cfg(&mut rng, false);
